@@ -435,3 +435,214 @@ def compile_recv_script(s, rng, consts):
         ops.append({"op": "pump"})
     ops.append({"op": "settle"})
     return {"cfg": {"topo": "par", "n": C, "style": rng.choice([0, 2, 4])}, "ops": ops}
+
+
+# --------------------------------------------------------------------------- the two checks
+
+SPECS = {
+    "C03": {"trace": "PaySendTrace", "other": "PayRecvTrace", "mc": "PaySendMC",
+            "actions": ["MObs", "MSend", "MAbandon", "MHandle", "MTick", "MSave", "MRestart", "MArrive", "MFailHop",
+                        "MClaim", "MFailR", "MDeliver", "MDup", "MCommit", "MQuiet"]},
+    "C04": {"trace": "PayRecvTrace", "other": None, "mc": "PayRecvMC",
+            "actions": ["MObs", "MPart", "MTick", "MClaim", "MFailBack", "MQuiet"]},
+}
+
+
+def trace_stats(path):
+    """What the recorded runs contain (for vacuity guards and the evidence)."""
+    c = {}
+
+    def inc(k, n=1):
+        c[k] = c.get(k, 0) + n
+    cur, sent, failed = None, {}, {}
+    with open(path) as f:
+        for ln in f:
+            r = json.loads(ln)
+            if r["run"] != cur:
+                if any(v > 1 for v in sent.values()):
+                    inc("runs_with_repeated_PaymentSent")
+                if any(v > 1 for v in failed.values()):
+                    inc("runs_with_repeated_PaymentFailed")
+                cur, sent, failed = r["run"], {}, {}
+            e = r["ev"]
+            if e == "event":
+                inc("ev_" + r["kind"])
+                if r["kind"] == "PaymentSent":
+                    sent[r["pid"]] = sent.get(r["pid"], 0) + 1
+                elif r["kind"] == "PaymentFailed":
+                    failed[r["pid"]] = failed.get(r["pid"], 0) + 1
+                elif r["kind"] == "PaymentPathFailed":
+                    if r["initial"]:
+                        inc("pathfailed_initial")
+                    elif r["blamed"] == 0:
+                        inc("pathfailed_no_channel")
+                    elif r["blamed"] in r["path"]:
+                        inc("pathfailed_hop%d" % (r["path"].index(r["blamed"]) + 1))
+            elif e == "send":
+                inc("send_" + r["res"])
+                if len(r["parts"]) > 1:
+                    inc("send_multipart")
+            elif e == "msg":
+                if r["kind"] != "update_add_htlc":
+                    inc("msg_" + r["kind"])
+            elif e in ("claim", "failback", "restart", "save", "tick", "block", "abandon", "panic", "quiet"):
+                inc(e)
+    return c
+
+
+def mutate(recs, fn):
+    """Apply fn to a deep copy of the first record it accepts; returns (records of that run) or None."""
+    for k, r in enumerate(recs):
+        m = fn(json.loads(json.dumps(r)), k, recs)
+        if m is not None:
+            run = r["run"]
+            out = []
+            for j, x in enumerate(recs):
+                if x["run"] != run:
+                    continue
+                if j == k:
+                    out += m
+                else:
+                    out.append(x)
+            return out
+    return None
+
+
+def selftest(pid, wd, tpath, muts):
+    """Binding self-test: each corruption of an accepted trace must be rejected by the trace spec."""
+    with open(tpath) as f:
+        recs = [json.loads(x) for x in f]
+    done, rejected, names = 0, 0, []
+    for name, fn in muts:
+        m = mutate(recs, fn)
+        if m is None:
+            continue
+        p = os.path.join(wd, "selftest-%s.ndjson" % name)
+        with open(p, "w") as f:
+            for r in m:
+                f.write(json.dumps(r) + "\n")
+        _, fails = vlib.validate_trace(pid, SPECS[pid]["trace"], SPECS[pid]["trace"] + ".cfg", p, max_failures=1, tag="st")
+        done += 1
+        names.append(name)
+        if fails:
+            rejected += 1
+        else:
+            vlib.log("[selftest] corruption %s was NOT rejected" % name)
+    if done < len(muts) - 1 or rejected != done:
+        raise vlib.ToolError("binding self-test: %d of %d corrupted traces rejected (%s)" % (rejected, done, names))
+    return {"mutations": done, "rejected": rejected, "kinds": names}
+
+
+def run_check(pid, tier, seed, mc_cfgs, compile_fn, random_fn, n_tlc, n_rand, need, selftests, assumptions, pick=None):
+    t0 = time.time()
+    wd = vlib.workdir(pid)
+    bins = vlib.build(["paynet"])
+    thorough = tier == "thorough"
+    rng = random.Random(seed)
+    spec = SPECS[pid]
+    consts = probe_consts(pid, bins["paynet"])
+
+    # ---- design check + behaviours
+    mcs, scripts = [], []
+    for cfg in mc_cfgs:
+        r = vlib.tlc_mc(pid, spec["mc"], cfg, workers=12, timeout=3400 if thorough else 900)
+        if r["violated"] or "Deadlock reached" in r["out"]:
+            raise vlib.ToolError("design model %s/%s does not meet the observable spec (%s): spec needs correction"
+                                 % (spec["mc"], cfg, r["violated"] or "deadlock"))
+        got = vlib.tlc_printed(r["out"], "SCRIPT")
+        vlib.log("[mc] %s: %d distinct states, %d generated, depth %d, %d scripts, %.0fs" %
+                 (cfg, r["distinct"], r["states"], r["depth"], len(got), r["wall_s"]))
+        if pick:
+            got = pick(got, rng)
+        scripts.append(got)
+        r.pop("out")
+        mcs.append((cfg, r))
+    cov = {}
+    for _, r in mcs:
+        for a, n in r["coverage"].items():
+            cov[a] = cov.get(a, 0) + n
+    missing = [a for a in spec["actions"] if cov.get(a, 0) == 0]
+    if missing:
+        raise vlib.ToolError("vacuity: actions never taken in %s: %s" % (spec["mc"], missing))
+    per = max(1, n_tlc // max(1, len(scripts)))
+    chosen = []
+    for got in scripts:
+        chosen += rng.sample(got, min(len(got), per))
+    conv = [compile_fn(s, rng, consts) for s in chosen]
+    rand = [random_fn(rng, consts) for _ in range(n_rand)]
+
+    # ---- real code + trace validation
+    nviol, total_events, total_runs = 0, 0, 0
+    stats = {}
+    summs = {}
+    accepted = []
+    for bname, batch in (("tlc", conv), ("rand", rand)):
+        if not batch:
+            continue
+        tpath, summ, index = run_engine(pid, bins["paynet"], batch, seed, bname)
+        vlib.log("[paynet] %s %s" % (bname, summ))
+        summs[bname] = summ
+        if summ["setup_failures"]:
+            raise vlib.ToolError("paynet could not build the network in %d runs" % summ["setup_failures"])
+        if summ["executed"] < 4 * summ["skipped"]:
+            raise vlib.ToolError("driver mostly skips: %s" % summ)
+        total_runs += summ["runs"]
+        for k, v in trace_stats(tpath).items():
+            stats[k] = stats.get(k, 0) + v
+        total, fails = vlib.validate_trace(pid, spec["trace"], spec["trace"] + ".cfg", tpath, timeout=2400, tag=bname)
+        total_events += total
+        if not fails:
+            accepted.append(tpath)
+        for k, fl in enumerate(fails):
+            ev = fl["rec"]
+            other = False
+            if spec["other"] and ev.get("ev") != "panic":
+                other = attribute(pid, wd, fl, spec["other"], "%s-%d" % (bname, k))
+            vlib.log("[reject] batch %s run %s at event %d (%s %s)%s" %
+                     (bname, fl["run"], fl["pos_in_run"], ev.get("ev"), ev.get("kind", ""),
+                      ": the recipient-side spec rejects this run too -> not this property" if other else ""))
+            if other:
+                continue
+            key = None
+            if ev.get("ev") == "panic" and "HTLCs should be sorted" in ev.get("msg", ""):
+                key = "claim_funds_on_unshown_htlcs"
+            if vlib.report_violation(pid, "%s-run%s" % (bname, fl["run"]), {
+                    "property": pid, "kind": fl["kind"], "invariant": fl["inv"],
+                    "first_unmatched_event": ev, "position_in_run": fl["pos_in_run"], "batch": bname,
+                    "script": index[fl["run"] - 1], "seed": seed,
+                    "trace_of_run": fl["run_events"], "last_state": fl["last_state"],
+                    "how_to_replay": "put `script` on one line of s.ndjson; harness/target/debug/paynet --scripts s.ndjson "
+                                     "--seed <seed> --out t.ndjson ; tools/tv.sh %s t.ndjson" % spec["trace"]}, key=key):
+                nviol += 1
+    for k, n in need.items():
+        if stats.get(k, 0) < n:
+            raise vlib.ToolError("vacuity: the runs contain %d x %s (need >= %d): %s" % (stats.get(k, 0), k, n, stats))
+
+    st = None
+    if nviol == 0 and accepted:
+        st = selftest(pid, wd, accepted[-1], selftests)
+        vlib.log("[selftest] %s" % st)
+
+    samples = conv[:1] + rand[:1]
+    if accepted:
+        with open(accepted[0]) as f:
+            samples.append({"trace_head": [json.loads(next(f)) for _ in range(8)]})
+    covd = {
+        "states": sum(r["distinct"] for _, r in mcs), "transitions": sum(r["states"] for _, r in mcs),
+        "traces_validated_against_impl": total_runs, "samples": samples,
+        "mc_runs": [{"cfg": c, "distinct": r["distinct"], "generated": r["states"], "depth": r["depth"],
+                     "action_coverage": {a: r["coverage"].get(a, 0) for a in spec["actions"]}, "wall_s": round(r["wall_s"], 1)} for c, r in mcs],
+        "scripts_from_tlc": len(conv), "random_scripts": len(rand), "events_validated": total_events,
+        "engine": summs, "observed": stats, "code_constants": consts, "binding_selftest": st, "exhaustive": False,
+    }
+    vlib.write_evidence(pid, tier, seed, "model_checking", covd, assumptions, time.time() - t0, nviol)
+    return nviol
+
+
+COMMON_ASSUMPTIONS = [
+    "every node is the implementation under test; channels stay open (a run in which a channel closes is not judged "
+    "after that point): on-chain resolution of payments, including forfeited dust HTLCs, is outside these checks",
+    "channel value 400,000 sat so that a node's summed balance fits TLC's 32-bit integers; fee estimators constant",
+    "monitor persistence completes synchronously; a node restarts only from a manager snapshot no monitor update has "
+    "overtaken (a stale manager makes LDK close the channel, i.e. leaves the off-chain scope)",
+]
